@@ -280,6 +280,74 @@ def rule_r5(text, rules):
             rules.append("R5")
     return apply_edits(text, edits) if edits else text
 
+def rule_r14(text, rules):
+    """`loop-body { ...; if C { S; continue; } REST }`  ->  `{ ...; if C { S } else { REST } }`
+    (Verus for-loops do not support `continue`; an early `continue` that ends a top-level `if` without `else` is the same as
+    putting the rest of the body into the else branch).  Other uses of `continue` are left alone (and refused later)."""
+    guard = 0
+    while True:
+        guard += 1
+        if guard > 50: return text
+        toks, st = _sig_with_index(text)
+        done = True
+        for ci, t in enumerate(st):
+            if not (t.kind == "ident" and t.text == "continue"): continue
+            if not (ci + 2 < len(st) and st[ci + 1].text == ";" and st[ci + 2].text == "}"): continue
+            if_close = ci + 2
+            # find the matching open brace of this block
+            d = 0; j = if_close
+            while j >= 0:
+                x = st[j]
+                if x.kind == "punct":
+                    if x.text == "}": d += 1
+                    elif x.text == "{":
+                        d -= 1
+                        if d == 0: break
+                j -= 1
+            if_open = j
+            # the block must belong to an `if` (scan back to the statement start)
+            k = if_open - 1
+            while k >= 0 and not (st[k].kind == "punct" and st[k].text in ("{", "}", ";")): k -= 1
+            if not (st[k + 1].kind == "ident" and st[k + 1].text == "if"): continue
+            if k >= 1 and st[k].text == "}" and False: continue
+            # not `else if`
+            if k >= 0 and st[k].kind == "ident" and st[k].text == "else": continue
+            # no else after
+            if if_close + 1 < len(st) and st[if_close + 1].kind == "ident" and st[if_close + 1].text == "else": continue
+            # enclosing block = loop body: find the `{` that encloses st[k+1]
+            d = 0; e = k
+            while e >= 0:
+                x = st[e]
+                if x.kind == "punct":
+                    if x.text == "}": d += 1
+                    elif x.text == "{":
+                        if d == 0: break
+                        d -= 1
+                e -= 1
+            if e < 0: continue
+            body_open = e
+            # that block must be a loop body: preceded (at some distance) by for/while/loop header -> check by _loop_headers
+            body_close = match_close(st, body_open)
+            hdr_ok = False
+            q = body_open - 1; d2 = 0
+            while q >= 0:
+                x = st[q]
+                if x.kind == "punct" and x.text in ("}", ";") and d2 == 0: break
+                if x.kind == "punct" and x.text in (")", "]"): d2 += 1
+                if x.kind == "punct" and x.text in ("(", "["): d2 -= 1
+                if x.kind == "ident" and x.text in ("for", "while", "loop") and d2 == 0: hdr_ok = True; break
+                q -= 1
+            if not hdr_ok: continue
+            rest_start = st[if_close].end
+            rest_end = st[body_close].start
+            rest = text[rest_start:rest_end]
+            new = text[:st[ci].start] + text[st[ci + 1].end:st[if_close].end] + " else {" + rest + "}" + text[rest_end:]
+            text = new
+            rules.append("R14")
+            done = False
+            break
+        if done: return text
+
 def rule_r4(text, rules):
     """for (i, x) in E.enumerate() { B }  ->  { let mut __nK: usize = 0; for x in E { let i = __nK; __nK += 1; B } }"""
     k = 0
@@ -542,6 +610,7 @@ def extract_item(path, selector, opts, directives, findings_open):
         text = rule_r8(text, rules)
         text = rule_r9(text, rules)
         text = rule_r5(text, rules)
+        text = rule_r14(text, rules)
         text = rule_r4(text, rules)
         if "r3" in opts:
             text = rule_r3(text, rules)
